@@ -61,6 +61,32 @@ type c04Opts struct {
 	// Assign lists, in documented precedence order (lowest first), what each source sets;
 	// only filled for the "simple" stream, where every flag value is one path=value.
 	Assign []c04Assign `json:"assign,omitempty"`
+	// Named: for the single-path value flags ("json:0", "set:1", "string:0", "setfile:0",
+	// "literal:0": family and position) the paths the expression names; used by the frame oracle.
+	Named map[string][][]c04Seg `json:"named,omitempty"`
+}
+
+func (o *c04Opts) name(fam string, i int, paths ...[]c04Seg) {
+	if o.Named == nil {
+		o.Named = map[string][][]c04Seg{}
+	}
+	o.Named[fmt.Sprintf("%s:%d", fam, i)] = paths
+}
+
+func c04PlainSegs(p []string) []c04Seg {
+	out := make([]c04Seg, len(p))
+	for i, k := range p {
+		out[i] = c04Seg{Key: k}
+	}
+	return out
+}
+
+func c04PairPaths(ps []c04Pair) [][]c04Seg {
+	var out [][]c04Seg
+	for _, p := range ps {
+		out = append(out, p.Path)
+	}
+	return out
 }
 
 const c04FileDir = "/tmp/hxc04-setfile"
@@ -286,21 +312,28 @@ var c04Hand = []string{"", "a", "a=", "a.", "a.b", "a.b=", ".a=1", "a.=1", "a[0]
 	"a[0].a[0].a[0].a[0].a[0].a[0].a[0].a[0].a[0].a[0].a[0].a[0].a[0].a[0].a[0].a=1", "a[0].a[0].a[0].a[0].a[0].a[0].a[0].a[0].a[0].a[0].a[0].a[0].a[0].a[0].a[0].a.a=1"}
 
 func c04GenJSONExpr(r *rand.Rand, dest vtree) string {
+	s, _ := c04GenJSONExprPaths(r, dest)
+	return s
+}
+
+func c04GenJSONExprPaths(r *rand.Rand, dest vtree) (string, [][]c04Seg) {
 	vals := []string{`1`, `"s"`, `null`, `true`, `[1,2]`, `{"x":1}`, `{"x":{"y":null}}`, ` 2`, `"a,b"`, `[{"k":"v"}]`, ``, ` `, `1.5`, `"é"`, `-3`, `[]`, `{}`, `"t"`, `false`, `[null]`}
 	if r.Intn(c04UnsafeOneIn) == 0 {
 		vals = []string{`tru`, `{`, `[1,`, `"open`, `nul`}
 	}
 	n := 1 + r.Intn(2)
 	var parts []string
+	var paths [][]c04Seg
 	for i := 0; i < n; i++ {
 		p := c04GenPath(r, dest)
+		paths = append(paths, p)
 		parts = append(parts, c04ShowPath(p)+"="+vals[r.Intn(len(vals))])
 	}
 	sep := ","
 	if r.Intn(6) == 0 {
 		sep = " , "
 	}
-	return strings.Join(parts, sep)
+	return strings.Join(parts, sep), paths
 }
 
 func c04GenParse(r *rand.Rand, base vtree) c04Case {
@@ -428,28 +461,32 @@ func c04GenOpts(r *rand.Rand, base vtree) c04Case {
 				o.Assign = append(o.Assign, c04LeafAssigns(t)...)
 			} else {
 				v := next()
+				o.name("json", len(o.JSON), c04PlainSegs(p))
 				o.JSON = append(o.JSON, strings.Join(p, ".")+"=\""+v+"\"")
 				o.Assign = append(o.Assign, c04Assign{Path: p, Val: v, Exact: true})
 			}
 		}
-		fam := func(dst *[]string) {
+		fam := func(dst *[]string, name string) {
 			for i := r.Intn(3); i > 0; i-- {
 				p, v := pick(), next()
+				o.name(name, len(*dst), c04PlainSegs(p))
 				*dst = append(*dst, strings.Join(p, ".")+"="+v)
 				o.Assign = append(o.Assign, c04Assign{Path: p, Val: v, Exact: true})
 			}
 		}
-		fam(&o.Set)
-		fam(&o.SetString)
+		fam(&o.Set, "set")
+		fam(&o.SetString, "string")
 		for i := r.Intn(2); i > 0; i-- {
 			p, v := pick(), next()
 			path := c04FilePath(v)
 			o.Contents[path] = v
+			o.name("setfile", len(o.SetFile), c04PlainSegs(p))
 			o.SetFile = append(o.SetFile, strings.Join(p, ".")+"="+path)
 			o.Assign = append(o.Assign, c04Assign{Path: p, Val: v, Exact: true})
 		}
 		for i := r.Intn(2); i > 0; i-- {
 			p, v := pick(), next()
+			o.name("literal", len(o.Literal), c04PlainSegs(p))
 			o.Literal = append(o.Literal, strings.Join(p, ".")+"="+v)
 			o.Assign = append(o.Assign, c04Assign{Path: p, Val: v, Exact: true})
 		}
@@ -461,6 +498,10 @@ func c04GenOpts(r *rand.Rand, base vtree) c04Case {
 	cur := vtree{}
 	for i := r.Intn(3); i > 0; i-- {
 		f := vtMutate(r, base, 3)
+		// lists of tables / scalars, so that indexed flags land on lists a lower source defined
+		if r.Intn(2) == 0 {
+			f[vtKeys[r.Intn(len(vtKeys))]] = []interface{}{vtree{"port": int64(1), "name": "n0"}, vtree{"port": int64(2)}, "s"}
+		}
 		o.Files = append(o.Files, f)
 		cur = f
 	}
@@ -473,25 +514,32 @@ func c04GenOpts(r *rand.Rand, base vtree) c04Case {
 			}
 			o.JSON = append(o.JSON, s)
 		} else {
-			o.JSON = append(o.JSON, c04GenJSONExpr(r, cur))
+			js, paths := c04GenJSONExprPaths(r, cur)
+			o.name("json", len(o.JSON), paths...)
+			o.JSON = append(o.JSON, js)
 		}
 	}
 	for i := r.Intn(3); i > 0; i-- {
-		s, _ := c04GenSetExpr(r, cur, "ParseInto")
+		s, ps := c04GenSetExpr(r, cur, "ParseInto")
+		o.name("set", len(o.Set), c04PairPaths(ps)...)
 		o.Set = append(o.Set, s)
 	}
 	for i := r.Intn(3); i > 0; i-- {
-		s, _ := c04GenSetExpr(r, cur, "ParseIntoString")
+		s, ps := c04GenSetExpr(r, cur, "ParseIntoString")
+		o.name("string", len(o.SetString), c04PairPaths(ps)...)
 		o.SetString = append(o.SetString, s)
 	}
 	for i := r.Intn(2); i > 0; i-- {
 		content := vtStrings[r.Intn(len(vtStrings))]
 		path := c04FilePath(content)
 		o.Contents[path] = content
-		o.SetFile = append(o.SetFile, c04ShowPath(c04GenPath(r, cur))+"="+path)
+		fp := c04GenPath(r, cur)
+		o.name("setfile", len(o.SetFile), fp)
+		o.SetFile = append(o.SetFile, c04ShowPath(fp)+"="+path)
 	}
 	for i := r.Intn(2); i > 0; i-- {
-		s, _ := c04GenSetExpr(r, cur, "ParseLiteralInto")
+		s, ps := c04GenSetExpr(r, cur, "ParseLiteralInto")
+		o.name("literal", len(o.Literal), c04PairPaths(ps)...)
 		o.Literal = append(o.Literal, s)
 	}
 	if r.Intn(15) == 0 {
@@ -501,6 +549,14 @@ func c04GenOpts(r *rand.Rand, base vtree) c04Case {
 }
 
 // ---------- execution ----------
+
+// c04OptStep: Options.MergeValues on the sources up to and including one flag (all -f files
+// first, then the value flags in the documented order); used by the frame oracle.
+type c04OptStep struct {
+	Flag string `json:"flag"` // "" = the -f files alone, else "set:0", "string:1", ...
+	Err  bool   `json:"err,omitempty"`
+	Out  vtree  `json:"out,omitempty"`
+}
 
 func c04ExecOpts(o *c04Opts, obs *c04Obs) {
 	dir, err := os.MkdirTemp("", "c04-")
@@ -513,7 +569,7 @@ func c04ExecOpts(o *c04Opts, obs *c04Obs) {
 		obs.Panic = "set-file fixture: " + err.Error()
 		return
 	}
-	opts := values.Options{JSONValues: o.JSON, Values: o.Set, StringValues: o.SetString, FileValues: o.SetFile, LiteralValues: o.Literal}
+	var files []string
 	for i, f := range o.Files {
 		b, err := yaml.Marshal(f)
 		if err != nil {
@@ -525,13 +581,49 @@ func c04ExecOpts(o *c04Opts, obs *c04Obs) {
 			obs.Panic = "write: " + err.Error()
 			return
 		}
-		opts.ValueFiles = append(opts.ValueFiles, p)
+		files = append(files, p)
 	}
+	opts := values.Options{ValueFiles: files, JSONValues: o.JSON, Values: o.Set, StringValues: o.SetString, FileValues: o.SetFile, LiteralValues: o.Literal}
 	m, err := opts.MergeValues(getter.Providers{})
 	if err != nil {
 		obs.Err = "error"
 	} else {
 		obs.Out = m
+	}
+	// the same call on every prefix of the flag sequence
+	if len(o.Named) == 0 {
+		return
+	}
+	fams := []struct {
+		name string
+		all  []string
+		dst  func(*values.Options) *[]string
+	}{
+		{"json", o.JSON, func(v *values.Options) *[]string { return &v.JSONValues }},
+		{"set", o.Set, func(v *values.Options) *[]string { return &v.Values }},
+		{"string", o.SetString, func(v *values.Options) *[]string { return &v.StringValues }},
+		{"setfile", o.SetFile, func(v *values.Options) *[]string { return &v.FileValues }},
+		{"literal", o.Literal, func(v *values.Options) *[]string { return &v.LiteralValues }},
+	}
+	pre := values.Options{ValueFiles: files}
+	run := func(flag string) {
+		st := c04OptStep{Flag: flag}
+		cp := pre // slices are re-sliced prefixes, never written after being handed over
+		m, err := cp.MergeValues(getter.Providers{})
+		if err != nil {
+			st.Err = true
+		} else if t, ok := vtNorm(vtree(m)).(vtree); ok {
+			st.Out = t
+		}
+		obs.Steps = append(obs.Steps, st)
+	}
+	run("")
+	for _, f := range fams {
+		for i := range f.all {
+			d := f.dst(&pre)
+			*d = append(append([]string{}, *d...), f.all[i])
+			run(fmt.Sprintf("%s:%d", f.name, i))
+		}
 	}
 }
 
